@@ -36,6 +36,9 @@ const TRANSITIONAL_SCSI_HOST: u16 = 0x1004;
 const TRANSITIONAL_ENTROPY_SOURCE: u16 = 0x1005;
 const TRANSITIONAL_9P_TRANSPORT: u16 = 0x1009;
 
+/// The highest BAR index which a VirtIO PCI capability can refer to.
+const MAX_BAR_INDEX: u8 = 5;
+
 /// The offset of the bar field within `virtio_pci_cap`.
 pub(crate) const CAP_BAR_OFFSET: u8 = 4;
 /// The offset of the offset field with `virtio_pci_cap`.
@@ -142,6 +145,11 @@ impl PciTransport {
                     .configuration_access
                     .read_word(device_function, capability.offset + CAP_LENGTH_OFFSET),
             };
+
+            if struct_info.bar > MAX_BAR_INDEX {
+                // Other values are reserved for future use, and such capabilities must be ignored.
+                continue;
+            }
 
             match cfg_type {
                 VIRTIO_PCI_CAP_COMMON_CFG if common_cfg.is_none() => {
